@@ -76,6 +76,7 @@ pub fn run(ctx: &Ctx) -> Outcome {
     let own_cells = report.set_len("matrix_own_state_x_kind");
     let foreign_cells = report.set_len("matrix_foreign_state_x_op");
     let floors = vec![
+        floor("the implementation's equality separates sign states whose futures differ (the explorer's visited set relies on it)", vsx::equality_merges_states_with_different_futures() == 0, vsx::equality_merges_states_with_different_futures()),
         floor("every explorer configuration reached a fixed point (frontier empty)", report.get("explorer_fixed_points") == nc as u64, report.get("explorer_fixed_points")),
         floor("13 states x 14 message kinds exercised for the own address", own_cells == 13 * vsx::N_KINDS, own_cells),
         floor("13 states x 6 operations exercised for the foreign address", foreign_cells == 13 * 6, foreign_cells),
